@@ -228,25 +228,8 @@ Partially_Reduced_Product<D1, D2, R>
 ::difference_assign(const Partially_Reduced_Product& y) {
   reduce();
   y.reduce();
-  // Since gamma(y) is the intersection of gamma(y.d1) and gamma(y.d2),
-  // x \ y is the union of x \ y.d1 and x \ y.d2: subtracting in both
-  // components at once would also remove the points of x that belong
-  // to just one of the components of y.
-  D1 new_d1(d1);
-  new_d1.difference_assign(y.d1);
-  D2 new_d2(d2);
-  new_d2.difference_assign(y.d2);
-  using std::swap;
-  if (new_d1.is_empty()) {
-    // gamma(x) is included in gamma(y.d1): only y.d2 can remove points.
-    swap(d2, new_d2);
-  }
-  else if (new_d2.is_empty()) {
-    // gamma(x) is included in gamma(y.d2): only y.d1 can remove points.
-    swap(d1, new_d1);
-  }
-  // Otherwise the union of the two differences is over-approximated
-  // by x itself.
+  d1.difference_assign(y.d1);
+  d2.difference_assign(y.d2);
   clear_reduced_flag();
 }
 
